@@ -130,22 +130,6 @@ def handle (op : String) (req : Json) : R Json := do
       | _ => throw s!"bad cmd {cmdName}"
     let a : Args := { cmd := cmd, inputs := xs.map (·.input), format := format, output := output, isDir := isDir }
     pure (jObj [("model", jResult (run a)), ("spec", jResult (specRun a))])
-  | "c20.stack" =>
-    -- bare stacking of single-field grids, also with the pre-802513a padding
-    let o ← getStr req "orientation" >>= parseOrient
-    let pad ← getInt req "pad"
-    let gs ← getList (fun g => do
-      let h ← getNat g "h"
-      let w ← getNat g "w"
-      let data ← getList asInt g "data"
-      if data.length ≠ h * w then throw "data/shape mismatch"
-      pure (mkGrid h w data.toArray)) req "grids"
-    let enc : Option (Grid Tok) → Json := fun r =>
-      match r with
-      | some g => jObj [("shape", jList jNat [g.h, g.w]), ("data", jGrid g)]
-      | none => Json.null
-    pure (jObj [("model", enc (stack o pad gs)), ("old", enc (stackOld o pad gs)),
-                ("spec", enc (if gs.isEmpty then none else some (stackSpec o pad gs)))])
   | _ => throw s!"unknown op {op}"
 
 end PewDriver.C20
